@@ -297,6 +297,9 @@ fn mode_interrupt(args: &Args) {
         let m = gen_model(&mut r, &cfg);
         let setup = Setup::random(&mut r);
         let what = *r.pick(&["satisfy", "satisfy", "iterate", "optimise", "optimise"]);
+        // a third of the plain satisfy cases become interrupted assumption solves (decided by a
+        // separate generator, so that the other cases are unchanged)
+        let what = if what == "satisfy" && Rng::new(case_seed ^ 0xA55).chance(1, 3) { "assume" } else { what };
         let spec = OptSpec { maximise: r.chance(1, 2), lus: r.chance(1, 2), objective: gen_objective(&mut r, &m) };
         let id = format!("{}-{}", args.seed, i);
         let desc = format!("scen=interrupt:{}{} seed={} {}", what, if what == "optimise" { if spec.lus { ":lus" } else { ":lsu" } } else { "" }, case_seed, setup.describe());
